@@ -420,7 +420,8 @@ def parcor_stable(filt):
 
   """
   try:
-    return all(abs(k) < 1 for k in parcor(ZFilter(filt.denpoly)))
+    den = filt.denpoly
+    return all(abs(k) < 1 for k in parcor(ZFilter(den / den[0]))) # Monic
   except ParCorError:
     return False
 
